@@ -169,7 +169,8 @@ def run(prog: Program, L: Ledger) -> None:
     all_calls = [c for c in calls_in(step.node)]
     sm = [c for c in all_calls if norm(c.func) == "self.atoms.set_momenta"]
     spp = [c for c in all_calls if norm(c.func) == "self.atoms.set_positions"]
-    gm = [c for c in all_calls if norm(c.func) == "self.atoms.get_momenta"]
+    # read-back of the momenta the constraints adjusted: get_momenta(), or get_velocities() (= momenta / the atoms' own masses)
+    gm = [c for c in all_calls if norm(c.func) in ("self.atoms.get_momenta", "self.atoms.get_velocities")]
     seq = sorted([(top_index(c), "set_momenta") for c in sm] + [(top_index(c), "set_positions") for c in spp] + [(top_index(c), "read_back") for c in gm])
     names = [k for _i, k in seq]
     ok_order = len(sm) == 1 and len(spp) == 1 and len(gm) >= 1 and all(top_index(sm[0]) < top_index(g) <= top_index(spp[0]) for g in gm) and all(i >= 0 for i, _k in seq)
@@ -180,7 +181,7 @@ def run(prog: Program, L: Ledger) -> None:
         spc = spp[0]
         smc = sm[0]
         arg = inl.inline(spc.args[0]) if spc.args else None
-        vocab = Vocabulary({"self.atoms.get_momenta()": ("Pback", {"real": True}), "self.shaped_masses": ("msh", {"positive": True}),
+        vocab = Vocabulary({"self.atoms.get_momenta()": ("Pback", {"real": True}), "self.atoms.get_velocities()": ("Vback", {"real": True}), "self.shaped_masses": ("msh", {"positive": True}),
                             "self.atoms.get_positions()": ("X0", {"real": True}), "self.atoms.positions.copy()": ("X0", {"real": True})})
         tr = Translator(vocab)
         try:
@@ -189,6 +190,13 @@ def run(prog: Program, L: Ledger) -> None:
             raise AnalysisError(f"ForceBias.step: position update `{norm(arg)[:80]}`: {exc}") from exc
         want = vocab.sym("X0", real=True) + vocab.sym("Pback", real=True) / vocab.sym("msh", positive=True)
         verdict, wit = same(sp.sympify(got), want)
+        if verdict == DIFFERENT:
+            # the velocities read back after the constraints acted are an equally constraint-filtered displacement (zero for
+            # fixed atoms; the constrained set_positions that follows takes care of the rest) — how the displacement is
+            # scaled by masses is C13's subject, not this property's
+            v2, _w2 = same(sp.sympify(got), vocab.sym("X0", real=True) + vocab.sym("Vback", real=True))
+            if v2 == EQUAL:
+                verdict = EQUAL
         a0 = norm(arg)
         if verdict == EQUAL:
             L.ok("K3", "ForceBias.step:applied", f"{step0.module.relpath}:{spc.lineno}")
